@@ -192,12 +192,14 @@ def _f32(x):
 
 def gen_taxonomy(rng, w, nt=None, conflict_bias=False, names='hostile', cr_names=False):
 	nt = nt or rng.randint(2, 13)   # > 10 so that keys such as t1 / t10 / t11 (one a prefix of the other) occur
+	# keys are specific to the world: an object leaking from another database processed earlier in the same process is then visibly foreign
+	w.tag = getattr(w, 'tag', None) or f'{rng.randrange(10 ** 6):06d}'
 	pool = list(HOSTILE) + (CR_NAMES if cr_names else [])
 	for i in range(nt):
 		parent = None if (i == 0 or rng.random() < 0.12) else w.taxa[rng.randrange(i)]
 		nm = f'Taxon {i}' if names == 'plain' or rng.random() < 0.4 else f'{rng.choice(pool)} {i}'
 		w.taxa.append(TX.T(i, parent, None, rng.random() < 0.8, nm))
-		w.tinfo.append(dict(key=f'verif/t{i}', rank=rng.choice(RANKS), ncbi_id=rng.choice([None, 1000 + i]), description=rng.choice([None, 'desc'])))
+		w.tinfo.append(dict(key=f'verif/{w.tag}/t{i}', rank=rng.choice(RANKS), ncbi_id=rng.choice([None, 1000 + i]), description=rng.choice([None, 'desc'])))
 	if conflict_bias and nt >= 4:
 		w.taxa[0].parent = None
 		w.taxa[1].parent, w.taxa[2].parent, w.taxa[3].parent = w.taxa[0], w.taxa[1], w.taxa[0]
@@ -222,7 +224,7 @@ def assign_thresholds(rng, w):
 
 def add_genome(w, rng, j, taxon, sig, contigs=None, names_pool=HOSTILE):
 	desc = f'Genome {j}' if rng.random() < 0.5 else f'{rng.choice(names_pool)} g{j}'
-	w.genomes.append(dict(key=f'verif/g{j}', description=desc, taxon=taxon, genbank_acc=f'GCA_{j:06d}.1', refseq_acc=f'GCF_{j:06d}.1',
+	w.genomes.append(dict(key=f'verif/{getattr(w, "tag", "0")}/g{j}', description=desc, taxon=taxon, genbank_acc=f'GCA_{j:06d}.1', refseq_acc=f'GCF_{j:06d}.1',
 	                      ncbi_db='assembly', ncbi_id=5000 + j * 7, sig=sorted(sig), contigs=contigs, organism=f'Org {j}'))
 
 
